@@ -324,7 +324,7 @@ pub fn run_hist_s(h: &[TOp], scheme: usize) -> Step {
             } else {
                 for (idx, ((w, e), got)) in b.insts.iter().zip(col.insts.iter()).enumerate() {
                     if let Exp::Accept(ops) = e {
-                        if &got.operands != ops {
+                        if got.operands.iter().map(model::from_operand).collect::<Vec<_>>() != ops.iter().map(model::from_operand).collect::<Vec<_>>() {
                             viols.push(viol(keyf("operands"), format!("history [{}] instruction {}: delivered operands {:?}, the declared types demand {:?}", hist_str(h), idx + 1, got.operands, ops), rep.clone()));
                             break;
                         }
